@@ -50,7 +50,6 @@ import (
 	"go/types"
 	"log"
 	"os"
-	"reflect"
 	"runtime"
 	"slices"
 	_ "unsafe"
@@ -110,6 +109,9 @@ type interpreter struct {
 	derived       map[string]*strTable
 	panicDepth    int
 	panicStack    string
+	sched         *scheduler
+	uninit        map[*ssa.Package]bool
+	modelled      map[*ssa.Global]bool
 }
 
 type deferred struct {
@@ -165,6 +167,10 @@ func (fr *frame) runDefer(d *deferred) {
 			// Deferred call created a new state of panic.
 			fr.panicking = true
 			fr.panic = recover()
+			switch fr.panic.(type) {
+			case goKill, pathEnd, assertFail, engineAbort:
+				panic(fr.panic)
+			}
 		}
 	}()
 	call(fr.i, fr, d.instr.Pos(), d.fn, d.args)
@@ -265,7 +271,7 @@ func visitInstr(fr *frame, instr ssa.Instruction) continuation {
 		panic(targetPanic{fr.get(instr.X)})
 
 	case *ssa.Send:
-		fr.get(instr.Chan).(chan value) <- fr.get(instr.X)
+		fr.i.selectOp([]selCase{{ch: fr.get(instr.Chan).(*chanObj), send: true, val: copyVal(fr.get(instr.X))}}, true, fr.i.posString(instr.Pos(), fr.fn))
 
 	case *ssa.Store:
 		store(mustDeref(instr.Addr.Type()), fr.get(instr.Addr).(*value), fr.get(instr.Val))
@@ -305,9 +311,10 @@ func visitInstr(fr *frame, instr ssa.Instruction) continuation {
 	case *ssa.Go:
 		fn, args := prepareCall(fr, &instr.Call)
 		fr.i.spawn(fr, instr, fn, args)
+		fr.i.schedPoint("go")
 
 	case *ssa.MakeChan:
-		fr.env[instr] = make(chan value, fr.i.concreteInt(fr.get(instr.Size), "chan size"))
+		fr.env[instr] = &chanObj{cap: int(fr.i.concreteInt(fr.get(instr.Size), "chan size")), elem: instr.Type().Underlying().(*types.Chan).Elem()}
 
 	case *ssa.Alloc:
 		var addr *value
@@ -412,40 +419,22 @@ func visitInstr(fr *frame, instr ssa.Instruction) continuation {
 		log.Fatal("unreachable") // phis are processed at block entry
 
 	case *ssa.Select:
-		var cases []reflect.SelectCase
-		if !instr.Blocking {
-			cases = append(cases, reflect.SelectCase{
-				Dir: reflect.SelectDefault,
-			})
-		}
+		var cases []selCase
 		for _, state := range instr.States {
-			var dir reflect.SelectDir
-			if state.Dir == types.RecvOnly {
-				dir = reflect.SelectRecv
-			} else {
-				dir = reflect.SelectSend
-			}
-			var send reflect.Value
+			c := selCase{ch: fr.get(state.Chan).(*chanObj), send: state.Dir != types.RecvOnly}
 			if state.Send != nil {
-				send = reflect.ValueOf(fr.get(state.Send))
+				c.val = copyVal(fr.get(state.Send))
 			}
-			cases = append(cases, reflect.SelectCase{
-				Dir:  dir,
-				Chan: reflect.ValueOf(fr.get(state.Chan)),
-				Send: send,
-			})
+			cases = append(cases, c)
 		}
-		chosen, recv, recvOk := reflect.Select(cases)
-		if !instr.Blocking {
-			chosen-- // default case should have index -1.
-		}
+		chosen, recv, recvOk := fr.i.selectOp(cases, instr.Blocking, fr.i.posString(instr.Pos(), fr.fn))
 		r := tuple{chosen, recvOk}
 		for i, st := range instr.States {
 			if st.Dir == types.RecvOnly {
 				var v value
 				if i == chosen && recvOk {
 					// No need to copy since send makes an unaliased copy.
-					v = recv.Interface().(value)
+					v = recv
 				} else {
 					v = zero(st.Chan.Type().Underlying().(*types.Chan).Elem())
 				}
@@ -541,7 +530,16 @@ func callSSA(i *interpreter, caller *frame, callpos token.Pos, fn *ssa.Function,
 		return res
 	}
 	i.stack = append(i.stack, fn)
-	defer func() { i.stack = i.stack[:len(i.stack)-1] }()
+	var me *gor
+	if i.sched != nil {
+		me = i.sched.cur
+	}
+	defer func() {
+		// a goroutine that is being torn down no longer owns i.stack
+		if (i.sched == nil || i.sched.cur == me) && len(i.stack) > 0 {
+			i.stack = i.stack[:len(i.stack)-1]
+		}
+	}()
 
 	// generic function body?
 	if fn.TypeParams().Len() > 0 && len(fn.TypeArgs()) == 0 {
@@ -603,7 +601,7 @@ func runFrame(fr *frame) {
 				fr.i.panicStack = fr.i.stackString()
 			}
 			panic(fr.panic)
-		case pathEnd, assertFail:
+		case pathEnd, assertFail, goKill:
 			panic(fr.panic) // not visible to the target program
 		}
 		if d := len(fr.i.stack); d >= fr.i.panicDepth {
